@@ -615,6 +615,9 @@ type MemberAccessExpression struct {
 	Member       string           `json:"member,omitempty"`
 	Kind         MemberAccessKind `json:"kind"`
 	ResolvedType Type             `json:"-"`
+	// for Kind == MemberAccessComputedField: whether that computed field yields a reference (a computed
+	// field that computes its value yields a temporary)
+	ComputedFieldIsReference bool `json:"-"`
 }
 
 func (e *MemberAccessExpression) _expression() {}
@@ -622,6 +625,9 @@ func (e *MemberAccessExpression) GetResolvedType() Type {
 	return e.ResolvedType
 }
 func (e *MemberAccessExpression) IsReference() bool {
+	if e.Kind == MemberAccessComputedField && !e.ComputedFieldIsReference {
+		return false
+	}
 	// a member of a temporary, e.g. (-point).x, is not something that can be referred to
 	return e.Target == nil || e.Target.IsReference()
 }
